@@ -95,9 +95,17 @@ DAGS = {
 }
 
 
-def dag_shape(dag):
+DAG_NAMES = {
+    # two DIFFERENT entities (classes) with one name: both would be emitted as `entity Leaf` -- VHDL names are not case sensitive
+    "same-name-different-entities": {1: "Leaf", 2: "Leaf"},
+    "same-name-different-case": {1: "Leaf", 2: "LEAF"},
+}
+I.register_model(VR.Entity.__dict__["name"], lambda it, self: self.fields["f_name"])
+
+
+def dag_shape(dag, names=None):
     def make(env):
-        ents = {i: SObj(VR.Entity, f_idx=i) for i in dag}
+        ents = {i: SObj(VR.Entity, f_idx=i, f_name=(names or {}).get(i, f"E{i}")) for i in dag}
         for i, subs in dag.items():
             ents[i].fields["_sub_entities"] = [SObj(VR.EntityInst, _entity=ents[j]) for j in subs]
         return ents[0]
@@ -123,10 +131,16 @@ def lib_spec(dag):
     return spec
 
 
-con = contract("cohdl._compiler.backend.vhdl._vhdl_repr:Library.from_top_entity", PROPS)
-for name, dag in DAGS.items():
-    c = Case(name, [dag_shape(dag)], lib_spec(dag))
+def lib_reject_spec(sx, top):
+    raise C.SpecRaise(AssertionError)
+
+
+con = contract("cohdl._compiler.backend.vhdl._vhdl_repr:Library.from_top_entity", PROPS + ("C06",))
+for name, dag in list(DAGS.items()) + [(n, DAGS["fan-out"]) for n in DAG_NAMES]:
+    c = Case(name, [dag_shape(dag, DAG_NAMES.get(name))], lib_reject_spec if name in DAG_NAMES else lib_spec(dag))
     c.native = False
+    if name in DAG_NAMES:
+        c.custom_replay = "contracts.c06_ports.replay_entity_names"
     c.interp_flags = {"class_call_models": {
         IdSet: lambda it, args, kwargs: gset(),
         VR.Library: lambda it, args, kwargs: SObj(VR.Library, f_top=args[0], f_entities=list(args[1])),
